@@ -13,7 +13,16 @@ is reduced to what matters here: a monotone version `srv k` of whatever key `k` 
                 creates an in-flight call;
   `serve i ttl` the server answers the i-th in-flight call from its current state;
   `fill i`      the caller resumes after `handleSend` and calls `putIfCurrent`;
-  `tick d`      virtual time passes.
+  `tick d`      virtual time passes;
+  `sub k` / `unsub k`  `ClientSession.Subscribe` / `Unsubscribe` enter / remove the URI in
+                `cs.resourceSubs` (`subs`).  NOTHING else reads that table: a handled
+                resource-updated notification invalidates the key it NAMES whether or not the client
+                holds a Subscribe entry for it — the server may name a sub-resource of what was
+                subscribed, the stream may have been opened below `Subscribe`, and `Unsubscribe`
+                removes the entry at once while the cancellation of the stream travels
+                asynchronously (an update the server sends before it processes the cancellation is
+                still handled).  `handleGated` / `stepGated` describe the variant that consults the
+                table; they are kept only for the counter-example in Props.lean.
 Notifications are delivered in any order relative to responses (more schedules than a FIFO
 connection allows — the theorems hold for all of them).
 
@@ -64,6 +73,8 @@ structure State where
   inbox : List Notif := []
   /-- ghost: per key, the newest version announced by a handled notification that covers it -/
   handled : Nat → Nat := fun _ => 0
+  /-- `cs.resourceSubs`: the URIs `ClientSession.Subscribe` has opened a stream for (read cache only) -/
+  subs : List Nat := []
 
 inductive Out where
   /-- a list/read call returned version `v` for `key`; `hit`: served from the cache;
@@ -79,6 +90,8 @@ inductive Label where
   | listStart (k : Nat)
   | serve (i ttl : Nat)
   | fill (i : Nat)
+  | sub (k : Nat)
+  | unsub (k : Nat)
 
 /-- `cacheEntry.isValid` and the `GetTTLMs() <= 0` test of `get`. -/
 def Entry.valid (e : Entry) (now : Nat) : Bool := 0 < e.ttl && now - e.t < e.ttl
@@ -129,6 +142,30 @@ def step (fixed : Bool) (s : State) : Label → State × List Out
   | .listStart k => listStart s k
   | .serve i ttl => (serve s i ttl, [])
   | .fill i => fill fixed s i
+  | .sub k => ({ s with subs := k :: s.subs.filter (· != k) }, [])
+  | .unsub k => ({ s with subs := s.subs.filter (· != k) }, [])
+
+/-- NOT the code that exists: a handler that invalidates the read cache only when the URI the
+notification names is in `cs.resourceSubs` (the notification is handled all the same: the ghost
+`handled` moves). -/
+def handleGated (s : State) (i : Nat) : State :=
+  match s.inbox[i]? with
+  | none => s
+  | some n =>
+    if (match n.scope with | none => true | some k => s.subs.contains k) then handle s i
+    else { s with inbox := s.inbox.eraseIdx i,
+                  handled := fun k => if n.covers k then max (s.handled k) (n.vers k) else s.handled k }
+
+def stepGated (s : State) : Label → State × List Out
+  | .handle i => (handleGated s i, [])
+  | l => step true s l
+
+def runGated (s : State) : List Label → State × List Out
+  | [] => (s, [])
+  | l :: ls =>
+    let (s1, o1) := stepGated s l
+    let (s2, o2) := runGated s1 ls
+    (s2, o1 ++ o2)
 
 def run (fixed : Bool) (s : State) : List Label → State × List Out
   | [] => (s, [])
